@@ -2,5 +2,5 @@ SPECIFICATION Spec
 CONSTANTS
   MaxReq = 3
   Universe <- MC_Universe
-INVARIANT ParentsFirstDesign
+INVARIANTS ParentsFirstDesign ReservedUnshadowedDesign
 CHECK_DEADLOCK FALSE
